@@ -340,7 +340,16 @@ func (c *c06Case) Run(ctx *core.Ctx) {
 		if c.Var == "named" {
 			comp = `<div class="c"><section><slot name="x"></slot></section><aside><slot name="x"></slot></aside></div>`
 		}
-		csrc, ctext, _ := c06Content(c.Kind, "")
+		var csrc, ctext string
+		if !strings.HasPrefix(c.Kind, "setsvar") {
+			csrc, ctext, _ = c06Content(c.Kind, "")
+		}
+		switch c.Kind {
+		case "setsvar": // content that sets a variable at its own level: every fill starts from the includer's value
+			csrc, ctext = `<template :n7="n7 + 1" mark="used"></template><b>#{{ n7 }}{{ mark }}</b>`, "#8used"
+		case "setsvarif":
+			csrc, ctext = `<i>[{{ mark }}]</i><template v-if="v" :mark="'M'"></template>`, "[]"
+		}
 		content := csrc
 		switch c.Form {
 		case "vslot":
@@ -596,7 +605,7 @@ func init() {
 					if (v == "named") != (form == "hash") {
 						continue
 					}
-					for _, k := range []string{"static", "dyn", "text", "two"} {
+					for _, k := range []string{"static", "dyn", "text", "two", "setsvar", "setsvarif"} {
 						emit(&c06Case{Part: "twice", Var: v, Form: form, Kind: k})
 					}
 				}
